@@ -204,7 +204,16 @@ def translate():
     except Exception:
         rep['own'] = {'error': out9[-500:]}
         rep['untranslatable'].append({'name': 'array::owning_data_t', 'group': 'Own', 'why': out9[-500:]})
-    return rep, out + out2 + out3 + out4 + out5 + out6 + out7 + out8 + out9
+    # the recursion scheme of utility::nd_map (Gen_NdMap.v)
+    rc10, out10 = sh([sys.executable, os.path.join(VERIF, 'tools', 'cxx_ndmap.py'), REPO, os.path.join(COQ, 'gen', 'Gen_NdMap.v')], timeout=300)
+    try:
+        rep['ndmap'] = json.loads(out10.strip().split('\n')[-1])
+        for pr in rep['ndmap']['problems']:
+            rep['untranslatable'].append({'name': 'utility::nd_map', 'group': 'NdMap', 'why': pr})
+    except Exception:
+        rep['ndmap'] = {'error': out10[-500:]}
+        rep['untranslatable'].append({'name': 'utility::nd_map', 'group': 'NdMap', 'why': out10[-500:]})
+    return rep, out + out2 + out3 + out4 + out5 + out6 + out7 + out8 + out9 + out10
 
 
 def coq_makefile():
